@@ -1,7 +1,7 @@
 (* C08 - more latency never means more limit (update monotone in the observed RTT). *)
 From Coq Require Import ZArith Reals List.
 From Flocq Require Import Core BinarySingleNaN.
-From GCL Require Import Base.F64 Base.F64Facts Model.Measure Model.Limits Proofs.VegasSafe Proofs.VegasMono Proofs.VegasQueueMono Proofs.VegasMonoFull Proofs.GradSafe Proofs.GradMono Proofs.GradMixed Proofs.Grad2Safe Proofs.Grad2Mono.
+From GCL Require Import Base.F64 Base.F64Facts Model.Measure Model.Limits Proofs.VegasSafe Proofs.VegasMono Proofs.VegasQueueMono Proofs.VegasMonoFull Proofs.VegasCeil Proofs.GradSafe Proofs.GradMono Proofs.GradMixed Proofs.Grad2Safe Proofs.Grad2Mono.
 From GCL Require Proofs.TablesOk.
 
 (* Vegas.  The observed RTT enters the update only through the queue estimate q = ceil(est x (1 - baseline/rtt)) (vegas_queue).
@@ -85,6 +85,14 @@ Theorem C08_gradient_margin g Mx s1 s2 o1 o2 q : GInv g Mx -> gsample_ok s1 -> g
   (R (g_est (o_st o2)) <= R (g_est (o_st o1)))%R.
 Proof. exact (grad_rtt_mono_margin g Mx s1 s2 o1 o2 q). Qed.
 Print Assumptions C08_gradient_margin.
+
+(* ... and exactly AT the ceiling the property FAILS on the faithful model (kernel-checked witness; reproduced on the implementation, known
+   finding F24): estimate = maximum = 12, smoothing 0.3.  A sample at the baseline RTT takes the increase branch, is clamped to the maximum
+   and smoothed: 0.7*12 + 0.3*12 rounds to 11.999999999999998, reported as 11; a sample with a higher RTT (queue inside the dead band)
+   leaves 12.  This is why C08_vegas_all_branches stops at max - 1. *)
+Theorem C08_vegas_refuted_at_ceiling : vc_after 1000000 = Some 11%Z /\ vc_after 1600000 = Some 12%Z.
+Proof. exact vegas_ceiling_refuted. Qed.
+Print Assumptions C08_vegas_refuted_at_ceiling.
 
 (* Gradient2 (partial).  The updating branch of a step computes g2_finish est (g2_gradient long' rtt), where long' is the long-term average
    after the sample has been added to it.  In binary64 the new stored estimate is monotone in the gradient, and for a given long-term value
